@@ -1113,3 +1113,121 @@ Section Validate.
     + destruct (is_basic_ty tf) eqn:Hb; [apply validate_basic|apply validate_packed]; assumption.
   Qed.
 End Validate.
+
+(* ================================================================== G. the row *)
+(* excluded headers: only the extension of the predicate matters *)
+Lemma mapRi_ext {E X T} (g g' : nat -> X -> result E T) l :
+  Forall (fun x => forall i, g i x = g' i x) l -> forall i, mapRi g i l = mapRi g' i l.
+Proof.
+  induction 1 as [|x r Hx Hr IH]; intros i; [reflexivity|]. cbn [mapRi]. rewrite Hx, IH. reflexivity.
+Qed.
+
+Lemma unparse_u_ext tgt exc exc' : (forall c, exc c = exc' c) ->
+  forall v comps, unparse_u tgt exc v comps = unparse_u tgt exc' v comps.
+Proof.
+  intros Hx. induction v as [s|z|s|b|l IH|fs IH] using value_ind'; intros comps; cbn [unparse_u]; rewrite Hx; try reflexivity.
+  destruct (exc' comps); [reflexivity|]. destruct (tgt comps); [reflexivity|]. f_equal.
+  apply mapRi_ext. apply Forall_forall. intros e He i. rewrite Forall_forall in IH. rewrite (IH e He). reflexivity.
+Qed.
+
+Lemma unparse_rec_ext tgt exc exc' : (forall c, exc c = exc' c) ->
+  forall t v comps, unparse_rec tgt exc t v comps = unparse_rec tgt exc' t v comps.
+Proof.
+  intros Hx. induction t as [| | | | |t' IH|fields h2f f2h IH] using ty_ind'; intros v comps;
+    cbn [unparse_rec]; rewrite Hx; try reflexivity.
+  - destruct (exc' comps); [reflexivity|]. destruct (is_basic_ty TUList || tgt comps); [reflexivity|].
+    destruct v; try reflexivity. f_equal. apply mapRi_ext. apply Forall_forall. intros e He i.
+    rewrite (unparse_u_ext tgt exc exc' Hx). reflexivity.
+  - destruct (exc' comps); [reflexivity|]. destruct (is_basic_ty (TList t') || tgt comps); [reflexivity|].
+    destruct v; try reflexivity. f_equal. apply mapRi_ext. apply Forall_forall. intros e He i.
+    rewrite IH. reflexivity.
+  - destruct (exc' comps); [reflexivity|]. destruct (is_basic_ty (TModel fields h2f f2h) || tgt comps); [reflexivity|].
+    destruct v as [| | | | |fs]; try reflexivity. f_equal. revert fs.
+    induction IH as [|[n [tf d]] r IHf _ IHr]; intros [|[n' v'] fs']; try reflexivity.
+    destruct (negb (str_eqb n n')); [reflexivity|]. destruct (is_default d v'); [apply IHr|].
+    cbn [f_ty fst snd] in IHf. rewrite IHf, Hx, IHr. reflexivity.
+Qed.
+
+Lemma matches_no_headers comps : matches_headers [] comps = false.
+Proof. destruct comps; reflexivity. Qed.
+
+(* header re-keying without row context: nothing changes when headers are distinct *)
+Lemma oset_absent_str {V} (d : list (str * V)) k v : ~ In k (map fst d) -> oset str_eqb d k v = d ++ [(k, v)].
+Proof.
+  induction d as [|[k' v'] r IH]; cbn [oset map fst app]; [reflexivity|]. intros H.
+  destruct (str_eqb k' k) eqn:E; [apply str_eqb_eq in E; exfalso; apply H; left; exact E|].
+  rewrite IH; [reflexivity|]. intros Hin. apply H. right. exact Hin.
+Qed.
+
+Lemma rekey_none_gen cells : forall acc,
+  NoDup (map fst (acc ++ cells)) ->
+  foldM (fun acc kv => do k <- ctx_h2f None cells (fst kv); Ok (oset str_eqb acc k (snd kv))) cells acc
+  = Ok (acc ++ cells).
+Proof.
+  generalize cells at 2. intros all. induction cells as [|[k v] r IH]; intros acc Hnd.
+  - rewrite app_nil_r. reflexivity.
+  - cbn [foldM ctx_h2f bind fst snd]. rewrite oset_absent_str.
+    + rewrite IH; rewrite <- app_assoc; [reflexivity|exact Hnd].
+    + rewrite map_app in Hnd. apply NoDup_remove_2 in Hnd. intros Hin. apply Hnd. apply in_or_app. left. exact Hin.
+Qed.
+
+Lemma rekey_none cells : NoDup (map fst cells) -> rekey None cells = Ok cells.
+Proof. intros H. unfold rekey. apply (rekey_none_gen cells []). exact H. Qed.
+
+Lemma expand_no_star lens cells :
+  Forall (fun kv => has_star (fst kv) = false) cells ->
+  flat_map (expand_cell lens) cells = map (fun kv => (fst kv, Raw (snd kv))) cells.
+Proof.
+  induction 1 as [|kv r Hk Hr IH]; [reflexivity|]. cbn [flat_map map]. unfold expand_cell at 1.
+  rewrite Hk, IH. reflexivity.
+Qed.
+
+Definition cells_of (cs : cols) : list (str * str) := map (fun ps => (header_of (fst ps), snd ps)) cs.
+
+Lemma parse_cols_fill root cs : forall o,
+  paths_nonempty cs -> names_ok cs ->
+  parse_cols root (map (fun kv => (fst kv, Raw (snd kv))) (cells_of cs)) o = fill root cs o.
+Proof.
+  induction cs as [|[p s] r IH]; intros o Hp Hn; [reflexivity|].
+  inversion Hp as [|? ? Hp1 Hp2]; subst. inversion Hn as [|? ? Hn1 Hn2]; subst. cbn [fst] in Hp1, Hn1.
+  unfold parse_cols, fill, cells_of. cbn [map foldM fst snd]. unfold parse_entry.
+  rewrite (header_path_roundtrip p Hp1 Hn1).
+  destruct (find_assign p root o (Raw s)) as [o'|e]; [|reflexivity]. apply IH; assumption.
+Qed.
+
+Lemma filter_all {X} (p : X -> bool) l : Forall (fun x => p x = true) l -> filter p l = l.
+Proof. induction 1 as [|x r Hx Hr IH]; [reflexivity|]. cbn [filter]. rewrite Hx, IH. reflexivity. Qed.
+
+(* C07-1: an instance inside the domain, written with the layout [targets] (no excluded
+   headers), is read back as itself *)
+Theorem row_roundtrip root v targets cells :
+  row_dom root v targets = true ->
+  unparse_row root v targets [] = Ok cells ->
+  parse_row {| rm_ty := root; rm_ctx := None |} cells = Ok v.
+Proof.
+  intros Hd Hu. unfold row_dom in Hd. apply andb_true_iff in Hd as [Hm Hd].
+  destruct root as [| | | | | |fields h2f f2h]; try discriminate. clear Hm.
+  set (tgt := matches_headers targets) in *.
+  unfold unparse_row in Hu. apply bind_ok_inv in Hu as (cs & Hcs & Hu).
+  rewrite (unparse_rec_ext tgt (matches_headers []) noexc matches_no_headers) in Hcs.
+  fold (cells_of cs) in Hu. destruct (nodup_str (map fst (cells_of cs))) eqn:Hnd; [|discriminate].
+  injection Hu as <-. apply nodup_str_NoDup in Hnd.
+  (* what was written *)
+  rewrite unparse_rec_unfold in Hcs. rewrite dom_unfold in Hd. cbn [is_basic_ty orb] in Hcs, Hd.
+  replace (tgt []) with false in Hcs, Hd by reflexivity.
+  destruct v as [| | | | |fs]; try discriminate. apply rmap_ok_inv in Hcs as (gs & Hgs & ->).
+  apply andb_true_iff in Hd as [Hnames Hd]. pose proof (nodup_str_NoDup _ Hnames) as Hnames'.
+  destruct (fill_model_fields tgt fields h2f f2h [] Hnames' fields
+              (proj2 (Forall_forall _ _) (fun f _ => puts_enc tgt (f_ty f))) fs [] gs
+              (fun f H => H) Hnames' (fun f _ => eq_refl) Hd Hgs) as (F1 & F2 & F3).
+  apply paths_nonempty_concat in F2. apply names_ok_concat in F3.
+  (* parse *)
+  unfold parse_row. cbn [rm_ctx rm_ty]. rewrite (rekey_none _ Hnd). cbn [bind].
+  rewrite expand_no_star.
+  - rewrite (parse_cols_fill _ _ _ F2 F3), F1. cbn [bind app].
+    pose proof (dom_fields_valid tgt h2f f2h [] fields fs Hd) as Hv.
+    rewrite (filter_all _ _ (enc_fields_not_none fields fs Hv)).
+    rewrite <- (enc_model fields h2f f2h). apply validate_model_enc; assumption.
+  - unfold cells_of. apply Forall_forall. intros kv Hin. apply in_map_iff in Hin as [ps [<- Hps]]. cbn [fst].
+    apply header_no_star. unfold names_ok in F3. rewrite Forall_forall in F3. apply F3, Hps.
+Qed.
